@@ -104,6 +104,27 @@ def mergePowers (b c : List (String × Nat)) : List (String × Int) :=
 /-- Σ |v| over the map values in iteration order `vals` -/
 def absSum (vals : List Int) : Nat := (vals.map Int.natAbs).sum
 
+/-! ### binary64 on non-negative integer values
+
+`round53 n` is the value `float64(n)` holds: `n` rounded to 53 significant bits, ties to even (IEEE-754 round-to-nearest-even;
+the exponent range is irrelevant for the magnitudes here).  `fadd` is the float addition of two such values: the exact sum,
+rounded.  `fsumAbs` is the loop `for _, v := range powers { delta += math.Abs(float64(v)) }` in a given iteration order.
+That Go's `float64(int64)` conversion and `+` are these functions is the (smaller) named assumption. -/
+
+def round53 (n : Nat) : Nat :=
+  let bits := if n = 0 then 0 else n.log2 + 1
+  if bits ≤ 53 then n else
+    let sh := bits - 53
+    let q := n / 2 ^ sh
+    let r := n % 2 ^ sh
+    let half := 2 ^ (sh - 1)
+    let q' := if r > half || (r == half && q % 2 == 1) then q + 1 else q
+    q' * 2 ^ sh
+
+def fadd (a b : Nat) : Nat := round53 (a + b)
+
+def fsumAbs (vals : List Int) : Nat := vals.foldl (fun acc v => fadd acc (round53 v.natAbs)) 0
+
 /-- the integer the float `delta` holds before the final division -/
 def powerDiffNumerator (b c : List (String × Nat)) : Nat := absSum ((mergePowers b c).map (·.2))
 
